@@ -173,6 +173,7 @@ orc_parse_code (const char *code, OrcProgram ***programs, int *n_programs,
   while (orc_parse_has_data (parser)) {
     OrcLine _line;
     OrcLine *line = &_line;
+    int n_errors_before;
 
     orc_parse_get_line (parser);
     if (parser->program) {
@@ -196,6 +197,7 @@ orc_parse_code (const char *code, OrcProgram ***programs, int *n_programs,
       continue;
     }
 
+    n_errors_before = orc_vector_length (&parser->errors);
     if (orc_line_is_directive (line)) {
       orc_parse_handle_directive (parser, line);
     } else {
@@ -209,7 +211,9 @@ orc_parse_code (const char *code, OrcProgram ***programs, int *n_programs,
     if (parser->program && parser->program != parser->refused_program) {
       const char *msg = orc_program_get_error (parser->program);
       if (msg && msg[0]) {
-        orc_parse_add_error (parser, "%s", msg);
+        if (orc_vector_length (&parser->errors) == n_errors_before) {
+          orc_parse_add_error (parser, "%s", msg);
+        }
         parser->refused_program = parser->program;
       }
     }
